@@ -396,8 +396,8 @@ func TestC08(t *testing.T) {
 		{"x,2,3,4,5,,,,6,,,\n", "timestamp-not-a-number"},
 		{"1,70000,3,4,5,,,,6,,,\n", "code-out-of-range"},
 		{"1,2,3,4,5,,!!,,6,,,\n", "body-not-base64"},
-		{"1,2,3,4,5,,,,6,,,\n", ""},      // a well-formed CSV record: must be detected
-		{"{}\n", ""},                     // an object without members
+		{"1,2,3,4,5,,,,6,,,\n", ""}, // a well-formed CSV record: must be detected
+		{"{}\n", ""},                // an object without members
 		{"{\"seq\":1}", "JSON-object-without-newline"},
 		{"[{\"seq\":1}]\n", "JSON-array"},
 		{"{\"seq\":-1}\n", "negative-seq"},
